@@ -364,7 +364,7 @@ func TestDecoderSelfCheck(t *testing.T) {
 	})
 }
 
-var alpha = []string{"a", "\"", "'", "\\", "\n", "\x00", "é", "n", "x", "0", "u", "{"}
+var alpha = []string{"a", "\"", "'", "\\", "\n", "\x00", "é", "n", "x", "0", "u", "{", "\r"}
 
 func TestExhaustiveStrings(t *testing.T) {
 	L := evid.Scale(5, 6)
@@ -672,6 +672,55 @@ func TestFloats(t *testing.T) {
 	}{{"inf", math.Inf(1)}, {"Inf", math.Inf(1)}, {"nan", math.NaN()}, {"NaN", math.NaN()}} {
 		judgeNumber(t, "floats", c.s, "", numExpect{f: c.f, weak: true}, false)
 	}
+}
+
+// TestNumberAdjacency: a numeral directly followed by an operator and another operand, without blanks: the numeral
+// ends where its spelling ends (a hexadecimal digit e / E is a digit, not an exponent mark; a complete exponent is
+// not extended by a following sign).
+func TestNumberAdjacency(t *testing.T) {
+	type num struct {
+		s     string
+		isInt bool
+		i     int64
+		f     float64
+	}
+	nums := []num{{"0", true, 0, 0}, {"7", true, 7, 0}, {"0x1e", true, 30, 0}, {"0xE", true, 14, 0}, {"0xfe", true, 254, 0}, {"0XBE", true, 190, 0}, {"0x1e5", true, 0x1e5, 0}, {"0xee", true, 0xee, 0}, {"0xabcde", true, 0xabcde, 0},
+		{"0x7ffffffffffffffe", true, 0x7ffffffffffffffe, 0}, {"1e5", false, 0, 1e5}, {"1E5", false, 0, 1e5}, {"2.5e-3", false, 0, 2.5e-3}, {"1e+5", false, 0, 1e5}, {"1.", false, 0, 1}, {"0.5", false, 0, 0.5}, {"10", true, 10, 0}}
+	rights := []string{"1", "0x1", "a", "1e2", "(2)", "0xe"}
+	n := 0
+	for _, l := range nums {
+		for _, op := range []string{"+", "-", "*", "/", "%", "==", "<", ">=", "!="} {
+			for _, r := range rights {
+				for _, gap := range []string{"", " "} {
+					if op == "/" || op == "%" {
+						if r == "(2)" {
+							continue
+						}
+					}
+					src := "x = " + l.s + gap + op + gap + r
+					node, _, bad := observe(src, false)
+					rp := replay{Src: src, Kind: "number-adjacency"}
+					if bad != "" {
+						rk.Fail(t, "adjacency", rp, "%s\nsource: %q", bad, src)
+					}
+					if node == nil {
+						rk.Fail(t, "adjacency", rp, "numeral followed by an operator was rejected\nsource: %q", src)
+					}
+					if node.Kind != gen.Binary || node.Op != op || node.X == nil {
+						rk.Fail(t, "adjacency", rp, "%q parsed to %s, want a %s expression with the numeral %s on the left", src, node.Shape(), op, l.s)
+					}
+					x := node.X
+					okNum := (l.isInt && x.Kind == gen.Int && x.I == l.i) || (!l.isInt && x.Kind == gen.Float && math.Float64bits(x.F) == math.Float64bits(l.f))
+					if !okNum {
+						rk.Fail(t, "adjacency", rp, "%q: left operand parsed to %s, want the numeral %s", src, x.Shape(), l.s)
+					}
+					evid.Case(src, gap == "", "number/adjacent-operator")
+					n++
+				}
+			}
+		}
+	}
+	evid.Exhaustive("numeral x operator x right operand x {no blank, blank}", n)
 }
 
 func TestMalformedNumbers(t *testing.T) {
